@@ -132,7 +132,7 @@ func ruleMATRIX(c *Ctx) {
 			problems = append(problems, "the result of insertQuoted is not tested")
 		} else {
 			note(holder.Cond)
-			for _, cc := range enclosingConds(p, f, holder) {
+			for _, cc := range dominatingConds(p, f, holder) {
 				note(cc.cond)
 			}
 			// conditions around the calls that lead from the subject to the helper
